@@ -296,7 +296,7 @@ Qed.
 
 (* an alias is produced exactly for colliding or reserved module names, and then it is the package initials, "_", the module *)
 Lemma module_alias_shape p v m c :
-  module_alias p v m c = if c || reserved m then pkg_initials p v ++ "_" ++ m else "".
+  module_alias p v m c = if c || reserved m || imported_name m then pkg_initials p v ++ "_" ++ m else "".
 Proof. reflexivity. Qed.
 
 (* two colliding modules of the same base name get distinct aliases exactly when their packages' initials differ *)
@@ -314,4 +314,15 @@ Lemma module_alias_same_initials_refuted :
 Proof.
   exists ["google"; "example"; "kw"; "v1"; "alpha"], ["google"; "example"; "kw"; "v1"; "apple"], "v1", "common".
   split; [discriminate | vm_compute; reflexivity].
+Qed.
+
+(* a types module named like a module the emitted code imports is never imported under that bare name *)
+Lemma imported_module_aliased p v m c : imported_name m = true -> module_alias p v m c = pkg_initials p v ++ "_" ++ m.
+Proof. intros H. unfold module_alias. rewrite H, !orb_true_r. reflexivity. Qed.
+
+Lemma alias_differs_from_module p v m : module_alias p v m true <> m.
+Proof.
+  unfold module_alias. cbn [orb]. intros H.
+  assert (L : String.length (pkg_initials p v ++ "_" ++ m) = String.length m) by (rewrite H; reflexivity).
+  rewrite !slen_app in L. cbn [String.length] in L. lia.
 Qed.
